@@ -187,3 +187,59 @@ Definition demo_tuple_sem (id : Z) (args : list (option val)) : option val :=
   | _ => None
   end.
 Definition demo_tuple_trace : list ev := [EvSer (VI 50); EvSer (VI 63)].
+
+(* x = 0
+   for i in range(4):
+       if i == 2:
+           continue          -- `continue;` in the C for-loop (the loop still advances i)
+       mon.write(i)
+   while True:
+       x = x + 1
+       if x % 2 == 0:
+           continue          -- at the level of the main loop: `return;` from loop()
+       mon.write(x)                                                                          *)
+Definition demo_cont : pprog :=
+  {| p_pre := [ PAssign nx (mk 1 TyInt true []);
+                PFor ni (mk 2 TyInt true [])
+                  [ PIf (mk 3 TyBool false [ni]) [PContinue] [] []; PWrite (mk 4 TyInt false [ni]) ] ];
+     p_main := Some [ PAssign nx (mk 5 TyInt false [nx]);
+                      PIf (mk 6 TyBool false [nx]) [PContinue] [] [];
+                      PWrite (mk 7 TyInt false [nx]) ] |}.
+Definition demo_cont_sem (id : Z) (args : list (option val)) : option val :=
+  match id with
+  | 1 => Some (VI 0) | 2 => Some (VI 4)
+  | 3 => match args with [Some (VI a)] => Some (VB (a =? 2)) | _ => None end
+  | 4 | 7 => match args with [Some (VI a)] => Some (VI a) | _ => None end
+  | 5 => match args with [Some (VI a)] => Some (VI (a + 1)) | _ => None end
+  | 6 => match args with [Some (VI a)] => Some (VB (Z.even a)) | _ => None end
+  | _ => None
+  end.
+Definition demo_cont_trace : list ev :=
+  [EvSer (VI 0); EvSer (VI 1); EvSer (VI 3); EvSer (VI 1); EvSer (VI 3)].
+
+Definition nsa : ident := [97].
+Definition nsb : ident := [98].
+
+(* a = 1
+   b = 2
+   for i in range(3):
+       a, b = b, a + b       -- __tmp_assign_0/1 local to the for body
+       mon.write(a)
+   while True:
+       a, b = b, a           -- swap through temporaries local to loop()
+       mon.write(a)                                                                          *)
+Definition demo_swap : pprog :=
+  {| p_pre := [ PAssign nsa (mk 1 TyInt true []); PAssign nsb (mk 2 TyInt true []);
+                PFor ni (mk 3 TyInt true [])
+                  [ PTuple [nsa; nsb] [mk 4 TyInt false [nsb]; mk 5 TyInt false [nsa; nsb]]; PWrite (mk 6 TyInt false [nsa]) ] ];
+     p_main := Some [ PTuple [nsa; nsb] [mk 7 TyInt false [nsb]; mk 8 TyInt false [nsa]];
+                      PWrite (mk 9 TyInt false [nsa]) ] |}.
+Definition demo_swap_sem (id : Z) (args : list (option val)) : option val :=
+  match id with
+  | 1 => Some (VI 1) | 2 => Some (VI 2) | 3 => Some (VI 3)
+  | 4 | 6 | 7 | 8 | 9 => match args with [Some (VI a)] => Some (VI a) | _ => None end
+  | 5 => match args with [Some (VI a); Some (VI b)] => Some (VI (a + b)) | _ => None end
+  | _ => None
+  end.
+Definition demo_swap_trace : list ev :=
+  [EvSer (VI 2); EvSer (VI 3); EvSer (VI 5); EvSer (VI 8); EvSer (VI 5)].
